@@ -13,7 +13,13 @@ func (c *FuncCtx) ptrModel() {
 	c.needDecl("elem_ptr", fmt.Sprintf("(declare-fun elem_ptr (Int %s) Int)", idx))
 	c.needDecl("ptr_ref", "(declare-fun ptr_ref (Int) Int)")
 	c.needDecl("ptr_off", fmt.Sprintf("(declare-fun ptr_off (Int) %s)", idx))
-	c.axiom(fmt.Sprintf("(forall ((r Int) (o %s)) (! (and (= (ptr_ref (elem_ptr r o)) r) (= (ptr_off (elem_ptr r o)) o) (=> (not (= r 0)) (not (= (elem_ptr r o) 0)))) :pattern ((elem_ptr r o))))", idx), "elem_ptr")
+	if c.mode == ModeInt {
+		// projections only for element addresses that can exist (a real array, an offset that fits in memory): the
+		// unguarded form contradicts the range of ptr_off and ptr_ref(p) != 0 for p != 0
+		c.axiom("(forall ((r Int) (o Int)) (! (=> (and (not (= r 0)) (<= 0 o) (< o 140737488355328)) (and (= (ptr_ref (elem_ptr r o)) r) (= (ptr_off (elem_ptr r o)) o) (not (= (elem_ptr r o) 0)))) :pattern ((elem_ptr r o))))", "elem_ptr")
+	} else {
+		c.axiom(fmt.Sprintf("(forall ((r Int) (o %s)) (! (=> (not (= r 0)) (and (= (ptr_ref (elem_ptr r o)) r) (= (ptr_off (elem_ptr r o)) o) (not (= (elem_ptr r o) 0)))) :pattern ((elem_ptr r o))))", idx), "elem_ptr")
+	}
 	c.axiom(fmt.Sprintf("(and (= (ptr_ref 0) 0) (= (ptr_off 0) %s))", c.so.idxLit(0)), "ptr_ref")
 	if c.mode == ModeInt {
 		c.axiom("(forall ((p Int)) (! (and (<= 0 (ptr_off p)) (< (ptr_off p) 140737488355328)) :pattern ((ptr_off p))))", "ptr_off")
